@@ -97,7 +97,7 @@ theorem removeElement (s : Sep r f) {n : Nat} (hn : n ∉ handles r) : Sep r (f.
     simp only
     have s1 := foldl_spliceOut (t0.kids.takeWhile (fun k => !k.value.isNormal)) s (by
       intro x hx
-      exact s.kids_disj hn hg x ((List.takeWhile_sublist _).mem hx) _ (handle_mem_handles x))
+      exact s.kids_disj hn hg x ((List.takeWhile_sublist _).mem hx) _ (fc_handle_mem_handles x))
     exact s1.spliceOut hn
 
 theorem elementUnwrap (s : Sep r f) {n : Nat} (hn : n ∉ handles r) :
